@@ -30,7 +30,10 @@ for case in job['cases']:
                            conic=fl(g('self.optic.object_surface.geometry.k', 0.0)))
     v0 = fl(g('self.optic.fields.get_vig_factor()[0]', 0.0)); v1 = fl(g('self.optic.fields.get_vig_factor()[1]', 0.0))
     epl = fl(g('self.optic.paraxial.EPL()', 0.0)); epd = fl(g('self.optic.paraxial.EPD()', 1.0))
-    optic = NS(object_surface=NS(is_infinite=bool(g('self.optic.object_surface.is_infinite', False)), geometry=geo),
+    n0 = fl(g('self.optic.object_surface.material_post.n()', 1.0))
+    optic = NS(object_surface=NS(is_infinite=bool(g('self.optic.object_surface.is_infinite', False)), geometry=geo,
+                                 material_post=NS(n=(lambda v: (lambda w_: v))(n0))),
+               primary_wavelength=0.55,
                fields=NS(max_field=fl(g('self.optic.fields.max_field', 0.0)),
                          get_vig_factor=(lambda a, b: (lambda Hx, Hy: (a, b)))(v0, v1)),
                field_type=g('self.optic.field_type', 'angle'),
@@ -96,6 +99,7 @@ def rg_cases(g, man, n):
             'self.optic.object_surface.geometry.k': g.r.choice([0.0, 0.0, g.uni(-1.5, 0.5)]),
             'self.optic.object_surface.geometry.cs.z': objz if not inf else -INF,
             'self.optic.aperture.ap_type': ap,
+            'self.optic.object_surface.material_post.n()': g.r.choice([1.0, 1.0, g.uni(1.2, 1.7)]),
             'self.optic.aperture.value': g.uni(0.02, 0.6) if ap == 'objectNA' else g.uni(1.0, 12.0),
             'self.optic.polarization': 'ignore' if i % 5 else 'state',
             'self.optic.surface_group.uses_polarization': (i % 7 == 3),
@@ -240,6 +244,7 @@ REJECT_RULES = [
     ('angle-fields-telecentric', lambda inf, ft, tele, ap: tele and ft == 'angle'),
     ('EPD-telecentric', lambda inf, ft, tele, ap: tele and ap == 'EPD'),
     ('imageFNO-telecentric', lambda inf, ft, tele, ap: tele and ap == 'imageFNO'),
+    ('objectNA-infinite-object', lambda inf, ft, tele, ap: inf and ap == 'objectNA'),
 ]
 
 
@@ -276,10 +281,6 @@ def check_launch(o, spec, ray, res, tol=1e-8):
     mf = max(math.hypot(f.x, f.y) for f in o.fields.fields)
     q = oracles.abcd_quantities(ps, ap, spec['aperture'][1], ft, mf)
     finite = all(math.isfinite(v) for v in (x, y, z, L, M, N))
-    if inf and ap == 'objectNA' and not finite:
-        # an object-space NA with the object at infinity has no entrance pupil diameter: neither rejected nor traceable
-        bad.append({'kind': 'objectNA-infinite-object-not-rejected', 'record': res[1], 'cell': [inf, ft, tele, ap]})
-        return bad
     if not tele and not all(v is not None and math.isfinite(v) for v in (q.get('EPL'), q.get('EPD'))):
         return bad          # degenerate prescription (afocal lens with an image F-number, pupil at infinity): no claim
     if not finite:
